@@ -395,3 +395,53 @@ Theorem model_is_code_glue_examples :
   g_convert fx (mkgdt (105000 * MEG) 1 (Some t)) false = Ok (mkgdt (83400 * MEG) 0 (Some fx)).
 Proof. exact glue_examples. Qed.
 Print Assumptions model_is_code_glue_examples.
+
+(* ---- set / on / at / replace / naive: the translated methods (Gen/TzGlue.v) ARE the step functions of Model/WallHistory.v (they funnel into
+   create with the fold of the INSTANCE).  tzp tzo = the (zone, is_fixed) pair of the timezone object, hres tzo r = the object a step result denotes;
+   time_us h mi s us = microseconds since midnight. ---- *)
+From PV Require Import Model.WallHistory.
+
+Theorem model_is_code_set : forall tzo W f W', wall_in_range W' = true ->
+  let d' := dt_of W' f None in
+  glue_DateTime_set (dt_of W f tzo) (Some (g_year d')) (Some (g_month d')) (Some (g_day d')) (Some (g_hour d')) (Some (g_minute d'))
+                    (Some (g_second d')) (Some (g_microsecond d')) None
+  = hres tzo (hstep (mkhst (tzp tzo) W f) (OSetWall W')).
+Proof. exact glue_set_wall. Qed.
+Print Assumptions model_is_code_set.
+
+Theorem model_is_code_set_tz : forall tzo t W f, wall_in_range W = true ->
+  glue_DateTime_set (dt_of W f tzo) None None None None None None None (Some t)
+  = hres (Some t) (hstep (mkhst (tzp tzo) W f) (OSetTz (gz_zone t) (gz_fixed t))).
+Proof. exact glue_set_tz. Qed.
+Print Assumptions model_is_code_set_tz.
+
+Theorem model_is_code_on : forall tzo W f y m d, wall_in_range W = true -> 1 <= y <= 9999 -> valid_dateb y m d = true ->
+  wall_in_range ((ymd2ord y m d - 1) * us_per_day + W mod us_per_day) = true ->
+  glue_DateTime_on (dt_of W f tzo) y m d = hres tzo (hstep (mkhst (tzp tzo) W f) (OOn (ymd2ord y m d - 1))).
+Proof. exact glue_on. Qed.
+Print Assumptions model_is_code_on.
+
+Theorem model_is_code_at : forall tzo W f h mi s us, wall_in_range W = true -> 0 <= h <= 23 -> 0 <= mi <= 59 -> 0 <= s <= 59 -> 0 <= us <= 999999 ->
+  glue_DateTime_at (dt_of W f tzo) h mi s us = hres tzo (hstep (mkhst (tzp tzo) W f) (OAt (time_us h mi s us))).
+Proof. exact glue_at. Qed.
+Print Assumptions model_is_code_at.
+
+Theorem model_is_code_replace : forall tzo W f f', wall_in_range W = true ->
+  glue_DateTime_replace_keep (dt_of W f tzo) None None None None None None None (Some (Z.b2z f'))
+  = hres tzo (hstep (mkhst (tzp tzo) W f) (OSetFold f')).
+Proof. exact glue_replace_fold. Qed.
+Print Assumptions model_is_code_replace.
+
+Theorem model_is_code_replace_tzinfo : forall tzo tz' W f, wall_in_range W = true ->
+  glue_DateTime_replace_tz (dt_of W f tzo) None None None None None None None tz' None
+  = match tz' with
+    | Some t => hres (Some t) (hstep (mkhst (tzp tzo) W f) (OSetTz (gz_zone t) (gz_fixed t)))
+    | None => hres None (hstep (mkhst (tzp tzo) W f) OReplaceNoTz)
+    end.
+Proof. exact glue_replace_tzinfo. Qed.
+Print Assumptions model_is_code_replace_tzinfo.
+
+Theorem model_is_code_naive : forall tzo W f, wall_in_range W = true ->
+  glue_DateTime_naive (dt_of W f tzo) = hres None (hstep (mkhst (tzp tzo) W f) ODropTz).
+Proof. exact glue_naive. Qed.
+Print Assumptions model_is_code_naive.
